@@ -38,12 +38,12 @@ CLAIMED = {
  "C16": ("rapid stateful property-based testing: listener registration / sample / set sequences, notification completeness and agreement",
          "listeners registered at arbitrary points on every limit type and wrapper; after every operation each listener must have been called if the estimate changed and its last value must equal EstimatedLimit(); wrappers must report the delegate's estimate and forward samples unchanged",
          "callbacks only record (they run under the limit's lock)", "4/C16"),
- "C18": ("rapid property-based testing: generated Add/Get/Reset/Update sequences against reference folds and a fresh-twin differential; sample-window fold with permutation metamorphic relation",
+ "C18": ("rapid property-based testing: generated Add/Get/Reset/Update sequences against reference folds and a fresh-twin differential; sample-window fold with permutation metamorphic relation; Update against a concurrent Add under generated cooperative schedules, judged against the two sequential orders on twins",
          "generated op sequences on every measurement type compared, after every step, with an independent reference fold (minimum, latest, warm-up mean, hull, non-negative variance), with a freshly constructed twin after each Reset, and with the change flag; exploration, not proof",
          "finite positive samples only (the property's domain); float comparisons with relative tolerance 1e-9 for means, exact elsewhere", "4/C18"),
 }
 CLAIMED.update({
- "C01": ("rapid stateful testing on a virtual clock (sequential gate oracle) + generated cooperative schedules and real-thread runs whose recorded histories are checked for linearizability (porcupine) against an atomic counting gate",
+ "C01": ("rapid stateful testing on a virtual clock (sequential gate oracle) + generated cooperative schedules and real-thread runs whose recorded histories are checked for linearizability (porcupine) against an atomic counting gate (strategies and limiter also built over a registry whose metric listeners are schedule points); a lifetime run of 2^32 real grant/release pairs per strategy kind in the thorough tier",
          "sequential: every Acquire granted iff outstanding < enforced limit while windows really close and the limit really moves; concurrent: worker programs under generated schedules (yields at the check-then-increment window, the sampling window, the scripted limit) and under real parallelism, the history incl. sample-driven limit updates must be linearizable against state=(held,limit)",
          "schedules are explored, not exhausted; porcupine v1.3.0 trusted; real-thread mode is probabilistic", "4/C01"),
  "C05": ("rapid stateful testing on a virtual clock: scripted estimate trajectories (0, negative, repeats) and real algorithms, enforcement compared after construction and after every event",
@@ -70,14 +70,14 @@ CLAIMED.update({
 })
 # compressed-history devices per property (appended to the level text)
 DEEP = {
- "C01": "up to 5000 tokens held and released in phases against limits up to 5000",
- "C02": "partition objects removed and attached again with tokens out, judged per object",
- "C03": "bursts of up to 600 limit changes, re-attached partition objects, removals racing the matching functions",
+ "C01": "up to 5000 tokens held and released in phases against limits up to 5000; in the thorough tier one instance of every strategy kind goes through 2^32 + 2^16 real grant/release pairs with tokens outstanding throughout, audited around 2^31 and 2^32",
+ "C02": "partition objects removed and attached again with tokens out, judged per object; release storms of up to 16 x 512 tokens at one moment; stacks whose every component logs through a formatting debug logger",
+ "C03": "bursts of up to 600 limit changes, re-attached partition objects, a second strategy built over the surviving objects, removals racing the matching functions, bins judged through whole limiter stacks",
  "C04": "sample lists fed up to 30 times over, windows of up to 131071 quiet samples, maxima up to MaxInt64",
  "C06": "prefix histories fed up to 30 times over, decimal ratios with float-noise products",
- "C07": "prefix histories fed up to 30 times over, healthy runs continued through probes",
+ "C07": "prefix histories fed up to 30 times over, ramps of up to 1000 ever slower samples, healthy runs continued through probes",
  "C08": "climbing histories judged after every prefix",
- "C09": "windows of up to 131072 samples, unbounded maximum window",
+ "C09": "windows of up to 131072 samples, unbounded maximum window, completions on the boundary instant, folds judged behind a traced limit as well",
  "C10": "up to 2100 callers that blocked and gave up before the scenario",
  "C11": "up to 300 hand-offs over a standing backlog, wait-for-ever timeouts",
  "C12": "limits that grow or are cut under queued callers",
